@@ -493,8 +493,10 @@ class PeerConnection:
         """Output that has not been handed to the socket yet: bytes in the
         write buffer, or queued messages that the write thread has not
         encoded into it so far."""
-        return (len(self._write_buffer) > 0 or
-                self._write_msg_queue.unfinished_tasks > 0)
+        # the queue first: a message leaves it only after it has reached the
+        # buffer, so whatever is no longer counted there is seen here
+        return (self._write_msg_queue.unfinished_tasks > 0 or
+                len(self._write_buffer) > 0)
 
     def add_in_bytes(self, read_bytes: bytes):
         """Add network-received bytes to parse and handle.
